@@ -72,6 +72,9 @@ class OrthogonalRegression(MultiOutputMixin, RegressorMixin):
 
         self.n_samples_in_, self.n_features_in_ = X.shape
         if self.use_orthogonal_projector:
+            if hasattr(self, "max_components_"):
+                # left over from an earlier fit in zero-padding mode
+                del self.max_components_
             # check estimator
             linear_estimator = (
                 LinearRegression()
